@@ -456,6 +456,25 @@ func genJSONFloatLiteral(c *simkit.Choices) string {
 	fixed := []string{"0.5", "-0.5", "1.0", "0.0", "-0.0", "1e2", "1E2", "1e+2", "1e-2", "3.14", "-3.14", "7e9",
 		"1.7976931348623157e308", "5e-324", "0.1", "123456789.125", "1.5E+10", "2.5e-10", "0e0", "10.25",
 		"9007199254740993.0", "0.30000000000000004", "1e21", "4.35", "100.0e-2", "-1E-0"}
+	if c.N(24) == 0 {
+		// a literal longer than the parser's 64-byte inline buffer
+		var sb strings.Builder
+		if c.Bool() {
+			sb.WriteByte('-')
+		}
+		sb.WriteByte(byte('1' + c.N(9)))
+		for i, n := 0, c.N(40); i < n; i++ {
+			sb.WriteByte(byte('0' + c.N(10)))
+		}
+		sb.WriteByte('.')
+		for i, n := 0, 30+c.N(120); i < n; i++ {
+			sb.WriteByte(byte('0' + c.N(10)))
+		}
+		if c.Bool() {
+			sb.WriteString("e-3")
+		}
+		return sb.String()
+	}
 	if c.N(3) > 0 {
 		return fixed[c.N(len(fixed))]
 	}
